@@ -1,8 +1,9 @@
 /-
-  C14 — COSE_Key conversion keeps EC2 coordinates at full length and round-trips every key.
-  `big.Int.Bytes()` is `natBytes`, `FillBytes` is `fillBytes`, `SetBytes` is `os2ip`, the left
-  padding of key.go:569-578 is `leftPad`, the constructor's `ec2Coordinate(v, size)` is
-  `ec2Coordinate`; for every curve size and all coordinate values (no bound, 0 included).
+  C14 — COSE_Key conversion keeps EC2 coordinates at full length ON THE WIRE and round-trips
+  every key.  `big.Int.Bytes()` is `natBytes`, `FillBytes` is `fillBytes`, `SetBytes` is `os2ip`,
+  the left padding of key.go:569-578 is `leftPad`, the constructor's `ec2Coordinate(v, size)` is
+  `ec2Coordinate` (`v.Bytes()`, except that 0 is `size` zero octets); for every curve size and all
+  coordinate values (no bound, 0 included).
 -/
 import CoseProofs.Lemmas.Ecdsa
 import CoseModel.Key
@@ -32,50 +33,77 @@ theorem coord_roundtrip (size x : Nat) : os2ip (leftPad size (natBytes x)) = x :
 theorem coord_reencode (size : Nat) (b : Bytes) : os2ip (leftPad size b) = os2ip b :=
   CoseModel.os2ip_leftPad size b
 
-/-! ### the constructor's coordinate (`ec2Coordinate`, NewKeyFromPublic / NewKeyFromPrivate) -/
+/-! ### the constructor's coordinate (`ec2Coordinate`, NewKeyFromPublic / NewKeyFromPrivate)
 
-/-- a coordinate that fits the field — 0 included — is stored at exactly the field size -/
-theorem ec2Coordinate_of_fits (size x : Nat) (h : x < 256 ^ size) :
-    ec2Coordinate x size = fillBytes size x ∧ (ec2Coordinate x size).length = size := by
-  have hb := (CoseModel.bitLen_le_iff x size).mpr h
-  have e : ec2Coordinate x size = fillBytes size x := by
-    unfold ec2Coordinate
-    rw [if_neg (by omega)]
-  exact ⟨e, by rw [e, CoseModel.fillBytes_length]⟩
-
-/-- a coordinate that does not fit is left in minimal form, which is longer than the field:
-    `validate` refuses it -/
-theorem ec2Coordinate_oversize (size x : Nat) (h : ¬ x < 256 ^ size) :
-    ec2Coordinate x size = natBytes x ∧ size < (ec2Coordinate x size).length := by
-  have hb : ¬ bitLen x ≤ size * 8 := fun hc => h ((CoseModel.bitLen_le_iff x size).mp hc)
-  have e : ec2Coordinate x size = natBytes x := by
-    unfold ec2Coordinate
-    rw [if_pos (by omega)]
-  refine ⟨e, ?_⟩
-  rw [e]
-  have := (CoseModel.natBytes_length_le_iff x size)
-  omega
-
-/-- so: the stored coordinate passes the length check of `validate` exactly when the value fits,
-    and then it has the full width -/
-theorem ec2Coordinate_length_le (size x : Nat) (h : (ec2Coordinate x size).length ≤ size) :
-    x < 256 ^ size ∧ ec2Coordinate x size = fillBytes size x := by
-  by_cases hfit : x < 256 ^ size
-  · exact ⟨hfit, (ec2Coordinate_of_fits size x hfit).1⟩
-  · have := (ec2Coordinate_oversize size x hfit).2
-    omega
+  `v.Bytes()` — minimal length — except that 0 is `size` zero octets, not the empty string. -/
 
 /-- the zero coordinate: `size` zero octets, not the empty string of `big.Int.Bytes()` -/
 theorem ec2Coordinate_zero (size : Nat) : ec2Coordinate 0 size = List.replicate size 0 := by
-  rw [(ec2Coordinate_of_fits size 0 (Nat.pow_pos (by decide))).1, CoseModel.fillBytes_zero]
+  unfold ec2Coordinate
+  rw [if_pos rfl]
+
+/-- every other coordinate is `big.Int.Bytes()`: minimal length, no leading zero octet -/
+theorem ec2Coordinate_nonzero (size x : Nat) (hx : x ≠ 0) : ec2Coordinate x size = natBytes x := by
+  unfold ec2Coordinate
+  rw [if_neg hx]
 
 /-- the round trip of the constructor's coordinate through `SetBytes`, for every value -/
 theorem ec2Coordinate_roundtrip (size x : Nat) : os2ip (ec2Coordinate x size) = x := by
-  unfold ec2Coordinate
-  split
-  · exact CoseModel.os2ip_natBytes x
-  · rename_i hb
-    exact CoseModel.os2ip_fillBytes size x ((CoseModel.bitLen_le_iff x size).mp (by omega))
+  by_cases hx : x = 0
+  · subst hx
+    rw [ec2Coordinate_zero]
+    have := CoseModel.os2ip_replicate_zero size []
+    rw [List.append_nil] at this
+    rw [this]; rfl
+  · rw [ec2Coordinate_nonzero size x hx, CoseModel.os2ip_natBytes]
+
+/-- the stored coordinate is never the empty string (on a curve, `size > 0`) — an empty x or y
+    is what `validate` / `PublicKey()` read as "coordinate missing" -/
+theorem ec2Coordinate_length_pos (size x : Nat) (hs : 0 < size) : 0 < (ec2Coordinate x size).length := by
+  by_cases hx : x = 0
+  · subst hx
+    rw [ec2Coordinate_zero, List.length_replicate]
+    exact hs
+  · rw [ec2Coordinate_nonzero size x hx]
+    exact CoseModel.natBytes_length_pos x (Nat.pos_of_ne_zero hx)
+
+theorem ec2Coordinate_nonempty (size x : Nat) (hs : 0 < size) : ec2Coordinate x size ≠ [] := by
+  intro h
+  have := ec2Coordinate_length_pos size x hs
+  rw [h] at this
+  exact Nat.lt_irrefl 0 this
+
+/-- the stored coordinate passes the length check of `validate` exactly when the value fits the
+    field -/
+theorem ec2Coordinate_length_le_iff (size x : Nat) :
+    (ec2Coordinate x size).length ≤ size ↔ x < 256 ^ size := by
+  by_cases hx : x = 0
+  · subst hx
+    rw [ec2Coordinate_zero, List.length_replicate]
+    exact ⟨fun _ => Nat.pow_pos (by decide), fun _ => Nat.le_refl _⟩
+  · rw [ec2Coordinate_nonzero size x hx]
+    exact CoseModel.natBytes_length_le_iff x size
+
+/-- what `MarshalCBOR` makes of the stored coordinate (left padding, key.go:569-578) is
+    `FillBytes` at the field size, for EVERY value that fits — 0 included, no `0 < x` -/
+theorem leftPad_ec2Coordinate (size x : Nat) (h : x < 256 ^ size) :
+    leftPad size (ec2Coordinate x size) = fillBytes size x := by
+  by_cases hx : x = 0
+  · subst hx
+    rw [ec2Coordinate_zero, ← CoseModel.fillBytes_zero]
+    exact CoseModel.leftPad_fillBytes size 0
+  · rw [ec2Coordinate_nonzero size x hx]
+    exact CoseModel.leftPad_natBytes size x (Nat.pos_of_ne_zero hx) h
+
+/-- so the serialised coordinate has exactly the field size -/
+theorem leftPad_ec2Coordinate_length (size x : Nat) (h : x < 256 ^ size) :
+    (leftPad size (ec2Coordinate x size)).length = size := by
+  rw [leftPad_ec2Coordinate size x h, CoseModel.fillBytes_length]
+
+/-- in memory a small non-zero value stays short (`big.Int.Bytes()`): the full width is a fact
+    about the wire, not about the stored parameter -/
+theorem ec2Coordinate_one (size : Nat) : ec2Coordinate 1 size = [1] := by
+  rw [ec2Coordinate_nonzero size 1 (by decide)]; simp [natBytes]
 
 /-- serialising pads nothing more: a full-width coordinate is emitted as it is -/
 theorem coord_fullwidth_fill (size x : Nat) :
@@ -86,9 +114,10 @@ theorem coord_fullwidth_fill (size x : Nat) :
 theorem curveSize_values : curveSize 1 = 32 ∧ curveSize 2 = 48 ∧ curveSize 3 = 66 := by decide
 
 example : leftPad 4 (natBytes 258) = [0, 0, 1, 2] := by simp [natBytes, leftPad]
-example : ec2Coordinate 258 4 = [0, 0, 1, 2] := by decide
+example : ec2Coordinate 258 4 = [1, 2] := by simp [ec2Coordinate, natBytes]
+example : leftPad 4 (ec2Coordinate 258 4) = [0, 0, 1, 2] := by simp [ec2Coordinate, natBytes, leftPad]
 example : ec2Coordinate 0 4 = [0, 0, 0, 0] := by decide
-example : ec2Coordinate 65536 2 = [1, 0, 0] := by
-  rw [(ec2Coordinate_oversize 2 65536 (by decide)).1]; simp [natBytes]
+example : leftPad 4 (ec2Coordinate 0 4) = [0, 0, 0, 0] := by decide
+example : ec2Coordinate 65536 2 = [1, 0, 0] := by simp [ec2Coordinate, natBytes]
 
 end C14
